@@ -54,6 +54,9 @@ pub mod pre {
     pub struct SyncWrapper;
     impl SyncWrapper { pub fn new<T>(t: T) -> (r: T) ensures r == t { t } }
 
+    /// http_body::Frame: a data frame is its payload.
+    pub struct Frame<D> { pub data: D }
+    impl<D> Frame<D> { pub fn data(d: D) -> (r: Frame<D>) ensures r.data == d { Frame { data: d } } }
     /// http_body::SizeHint.
     pub struct SizeHint { pub lower: u64, pub upper: Option<u64> }
     impl SizeHint {
